@@ -72,7 +72,8 @@ def probe_enc(ctx, payload):
     common_buckets(ctx, base, meta)
     has_tie = meta["ties"] != "none"
     for enc in payload["encs"]:
-        as_, vals, style, tags = enc[:4]
+        as_, vals, style = enc[:3]  # witness files written by earlier versions carry 3 or 4 fields
+        tags = enc[3] if len(enc) > 3 else None
         other = enc[4] if len(enc) > 4 else "absent"
         c2 = dict(case)
         c2["sel"], c2["vals"] = as_, vals
